@@ -147,6 +147,10 @@ func checkC02(p *Prog, r *Report) {
 		switch calleeName(c.Common()) {
 		case "io.WriteString", "(io.Writer).Write", "fmt.Fprintf", "fmt.Fprint", "fmt.Fprintln", "(io.StringWriter).WriteString":
 			writes = append(writes, c)
+		default:
+			if _, _, isWA := writeAllCall(c.Common()); isWA {
+				writes = append(writes, c)
+			}
 		}
 	})
 	if 1 != len(writes) {
@@ -160,6 +164,10 @@ func checkC02(p *Prog, r *Report) {
 			payload = wcall.Common().Args[1]
 		case "(io.Writer).Write":
 			payload = stripConv(wcall.Common().Args[0], true)
+		default:
+			if _, pl, isWA := writeAllCall(wcall.Common()); isWA {
+				payload = stripConv(pl, true)
+			}
 		}
 		c := fnName(fn) + ":payload"
 		if b, ok := payload.(*ssa.BinOp); ok && token.ADD == b.Op && b.X == ssa.Value(recvVal) {
@@ -242,7 +250,9 @@ func checkC02(p *Prog, r *Report) {
 		}
 		rErr.OK(fnName(fn)+":"+what+"-error", posOf(call), "a failed %s leaves the loop", what)
 	}
-	checkErrEdge("write", wcall, 1)
+	if nil != wcall {
+		checkErrEdge("write", wcall, writeErrIndex(wcall))
+	}
 	checkErrEdge("flush", fcall, -1)
 	/* Closed input: the !ok edge returns without writing. */
 	if nil != okVal {
@@ -287,6 +297,7 @@ func checkC02(p *Prog, r *Report) {
 
 	checkInsertOneEntry(p, r, rIns)
 	checkTransportWriter(p, r, rTW)
+	checkStreamLifetime(p, r, r.Rule("stream-lifetime", "nothing puts a clock on the stream operator input is written to (C03's rule, for the input direction)"))
 	checkFullDuplex(p, r, r.Rule("duplex-enabled", "every handler which attaches both directions on one request enables full-duplex HTTP on that request before it does (else the first flush waits for the client's request body and operator input is not delivered promptly)"))
 }
 
@@ -367,16 +378,102 @@ func checkTransportWriter(p *Prog, r *Report, ru *Rule) {
 			if wp, ok := x.(*ssa.Parameter); ok && typeIs(wp.Type(), "net/http", "ResponseWriter") {
 				return /* handed on as received */
 			}
+			/* Around something which is known not to be a shell's
+			route (the script handler, a file server): not a
+			transport of operator input. */
+			var hv ssa.Value
+			if cc.IsInvoke() {
+				hv = cc.Value
+			} else {
+				hv = cc.Args[0]
+			}
+			if g := servedBy(p, hv); nil != g {
+				shell := false
+				for _, gf := range withAnons(g) {
+					eachInstr(gf, func(j ssa.Instruction) {
+						c2 := callCommon(j)
+						if nil == c2 {
+							return
+						}
+						if callee := c2.StaticCallee(); nil != callee && "Broker" == recvTypeName(callee) && strings.HasPrefix(callee.Name(), "Connect") {
+							shell = true
+						}
+						if cs, _, _ := serveHTTPCalls(gf); 0 != len(cs) {
+							shell = true /* hands on again: unknown */
+						}
+					})
+				}
+				if !shell {
+					return
+				}
+			} else if hc, isCall := resolveFree(stripConv(resolveCell(resolveFree(hv)), false)).(*ssa.Call); isCall {
+				switch calleeName(hc.Common()) {
+				case "net/http.FileServer", "net/http.FileServerFS", "net/http.NotFoundHandler", "net/http.RedirectHandler":
+					return
+				}
+			}
 			if _, ok := resolveFree(x).(*ssa.Parameter); ok && typeIs(x.Type(), "net/http", "ResponseWriter") {
 				return
 			}
 			c := fmt.Sprintf("%s→ServeHTTP:writer", fnName(fn))
-			ms := p.SSA.MethodSets.MethodSet(x.Type())
-			has := false
-			for m := 0; m < ms.Len(); m++ {
-				if "FlushError" == ms.At(m).Obj().Name() {
-					has = true
+			hasFE := func(t types.Type) bool {
+				ms := p.SSA.MethodSets.MethodSet(t)
+				for m := 0; m < ms.Len(); m++ {
+					if "FlushError" == ms.At(m).Obj().Name() {
+						return true
+					}
 				}
+				return false
+			}
+			has := hasFE(x.Type())
+			if !has {
+				/* Chosen at run time among several wrappers: each one
+				offers FlushError, or is the writer as received, or is
+				used only where a type assertion found that the real
+				writer has no FlushError either. */
+				noFE := map[Edge]bool{}
+				for _, b := range fn.Blocks {
+					ifi := blockIf(b)
+					if nil == ifi {
+						continue
+					}
+					dc := decodeCond(ifi.Cond)
+					ex, isEx := dc.X.(*ssa.Extract)
+					if !isEx || 1 != ex.Index || nil != dc.Y {
+						continue
+					}
+					ta, isTA := ex.Tuple.(*ssa.TypeAssert)
+					if !isTA || !ta.CommaOk || !hasFE(ta.AssertedType) {
+						continue
+					}
+					if _, isParam := resolveFree(stripConv(resolveCell(ta.X), false)).(*ssa.Parameter); !isParam {
+						continue
+					}
+					k := 1 /* the edge on which the assertion failed */
+					if !dc.Eq {
+						k = 0
+					}
+					noFE[Edge{b.Index, b.Succs[k].Index}] = true
+				}
+				leaves := phiLeaves(w)
+				all := len(leaves) > 1 || (1 == len(leaves) && leaves[0].V != x)
+				for _, l := range leaves {
+					lv := stripConv(l.V, false)
+					if lp, isP := resolveFree(lv).(*ssa.Parameter); isP && typeIs(lp.Type(), "net/http", "ResponseWriter") {
+						continue
+					}
+					if hasFE(lv.Type()) {
+						continue
+					}
+					blk := l.From
+					if li, isInstr := lv.(ssa.Instruction); isInstr && nil == blk {
+						blk = li.Block()
+					}
+					if nil == blk || 0 == len(noFE) || blockReachableAvoiding(fn, blk, noFE) {
+						all = false
+					}
+				}
+				has = all
 			}
 			if has {
 				ru.OK(c, posOf(i), "the wrapped writer (%s) offers FlushError", x.Type())
@@ -756,4 +853,30 @@ func operandsReach(v ssa.Value, pred func(ssa.Value) bool) bool {
 		return false
 	}
 	return walk(v, 0)
+}
+
+
+// blockReachableAvoiding: can blk be reached from fn's entry without taking
+// one of the given edges?
+func blockReachableAvoiding(fn *ssa.Function, blk *ssa.BasicBlock, avoid map[Edge]bool) bool {
+	if 0 == len(fn.Blocks) {
+		return true
+	}
+	seen := map[int]bool{0: true}
+	work := []*ssa.BasicBlock{fn.Blocks[0]}
+	for 0 != len(work) {
+		b := work[len(work)-1]
+		work = work[:len(work)-1]
+		if b == blk {
+			return true
+		}
+		for _, s := range b.Succs {
+			if avoid[Edge{b.Index, s.Index}] || seen[s.Index] {
+				continue
+			}
+			seen[s.Index] = true
+			work = append(work, s)
+		}
+	}
+	return false
 }
